@@ -381,19 +381,24 @@ func (f *flow) Start(ctx context.Context) {
 						}
 						source := f.current.Element()
 
-						current := sequences[0]
 						effectiveFlows := make([]Snapshot, 0)
 
-						flowed := f.handleSequenceFlow(ctx, current, unconditional[0], a.actionTransformer, a.terminate)
-
-						if flowed {
-							effectiveFlows = append(effectiveFlows, Snapshot{sequenceFlow: current, flowId: f.Id()})
-						}
-
-						rest := sequences[1:]
+						// This token continues on the first sequence flow that flows, the
+						// others fork new tokens. Bound to the first flow listed, it stayed
+						// at the node when that flow's condition was false while another
+						// flowed, and asked the node for its next action once more (a task
+						// was requested a second time).
+						continued := false
 						flowHandlers := make([]func(ctx context.Context), 0)
-						for i, sequenceFlow := range rest {
-							flowId, flowHandler, flowed := f.handleAdditionalSequenceFlow(ctx, sequenceFlow, unconditional[i+1],
+						for i, sequenceFlow := range sequences {
+							if !continued {
+								if f.handleSequenceFlow(ctx, sequenceFlow, unconditional[i], a.actionTransformer, a.terminate) {
+									continued = true
+									effectiveFlows = append(effectiveFlows, Snapshot{sequenceFlow: sequenceFlow, flowId: f.Id()})
+								}
+								continue
+							}
+							flowId, flowHandler, flowed := f.handleAdditionalSequenceFlow(ctx, sequenceFlow, unconditional[i],
 								a.actionTransformer, a.terminate)
 							if flowed {
 								effectiveFlows = append(effectiveFlows, Snapshot{sequenceFlow: sequenceFlow, flowId: flowId})
